@@ -89,6 +89,11 @@ CHECKS = [
   'level': 'For all transported matrices, eigenvectors, orbit points and displacements: seed - orbit point = displacement * direction * Phi(frac) v / |(Phi v)_pos| (snapping only below 1e-15); forward = -stable and every seed is propagated with it (all six components reversed); '
            'the STM feeding eigenvectors and transport is the forward one over one period; only eigenvectors with |lambda| < 1-delta / > 1+delta are offered as stable/unstable; retained trajectories passed the Jacobi filter, whose quantity is a first integral.',
   'note': 'propagation/STM/eigen-solver are stubs (contracts); 3x3 real spectra for the classification; numerical accuracy of PHI(frac) v outside'},
+ {'id': 'C14',
+  'technique': 'path-exhaustive symbolic execution (z3) of the crossing test and of the return-map step with integrator and field uninterpreted; access logging under permuted prange orders; product exploration of the engine over success patterns, worker counts and completion orders',
+  'level': 'A return is reported exactly at the first step whose end states change the sign of the section coordinate strictly in the section\'s direction, refined at alpha in (0,1) with time elapsed + alpha dt; every write of seed i goes to cell i and output i depends on seed i only; '
+           'every returned row has section coordinate exactly 0; the multiset of returned rows is identical for 1..3 workers and every completion order, for every success pattern of the per-seed map.',
+  'note': '4 seeds, 2 map iterations, <= 2 integration steps per return, 3 workers; direction convention read from the code comments; energy conservation and interpolation accuracy are numerics outside; RK copy = generic kernel is C02-(4)'},
 ]
 _BUILT = {c['id'] for c in CHECKS}
 NOT_APPLICABLE = [
